@@ -13,6 +13,10 @@ block contributes its length to the product"):
   C06-LENGTH  the length handed to ``loop`` / ``iterations`` is the length of the very value
               being iterated (same variable, or the ``(iterator, length)`` pair returned by one
               ``LoopExpression.evaluate*`` call).
+  C06-RECEIVER the context manager is entered on the very context object the body renders with
+              (the same name, the ``as`` target, or a ``copy(carry_loop_iterations=True)`` of it made
+              inside the block) — exporting the length on the parent of an already-copied context
+              leaves nested checks without the factor.
   C06-CM      ``RenderContext.loop`` calls ``raise_for_loop_limit(forloop.length)`` before pushing
               the loop and pops it in ``finally``; ``RenderContext.iterations`` calls
               ``raise_for_loop_limit(length)`` before multiplying ``loop_iteration_carry`` by
@@ -50,9 +54,19 @@ def _parents(fn):
     return pm
 
 
+def bind_ctx_arg(call: ast.Call):
+    """the context argument of a ``render*(context, buffer, ...)`` call (positional or keyword)."""
+    for k in call.keywords:
+        if k.arg in ("context", "ctx"):
+            return k.value
+    if call.args:
+        return call.args[0]
+    return None
+
+
 def run(repo: Repo) -> Result:
     res = Result(PID)
-    res.rules = ["C06-REPEAT", "C06-LENGTH", "C06-CM", "C06-LIMIT", "C06-COPY"]
+    res.rules = ["C06-REPEAT", "C06-LENGTH", "C06-RECEIVER", "C06-CM", "C06-LIMIT", "C06-COPY"]
     res.explanation = "every data-driven repetition of a block in any render method is enclosed by a context manager that checks the limit and exports its length; shape of the limit arithmetic and of the carry into copied contexts"
     res.assumptions = ["iteration over fields of the parsed template is bounded by the source, not by data"]
 
@@ -127,6 +141,47 @@ def run(repo: Repo) -> Result:
                             ok = True
                     if not ok:
                         res.add("C06-LENGTH", f.qual, f"length:{text(g)[:40]}", f"{f.qual}: `{text(g)[:60]}` does not take the length of the value the loop iterates (`{text(it_)[:30]}`)", f.file, g.lineno)
+                    # C06-RECEIVER: the length must be exported on the very context the body renders
+                    # with — exporting it on the parent after the child context was copied (or on
+                    # any other context) leaves the nested checks without this factor.
+                    res.ob(construct + ":receiver")
+                    recv = g.func.value if isinstance(g.func, ast.Attribute) else None
+                    recv_name = recv.id if isinstance(recv, ast.Name) else None
+                    with_node = None
+                    cur = node
+                    while id(cur) in pm:
+                        cur = pm[id(cur)]
+                        if isinstance(cur, (ast.With, ast.AsyncWith)) and any(item.context_expr is g for item in cur.items):
+                            with_node = cur
+                            break
+                    as_names = set()
+                    if with_node is not None:
+                        for item in with_node.items:
+                            if item.context_expr is g and isinstance(item.optional_vars, ast.Name):
+                                as_names.add(item.optional_vars.id)
+                    for bc in body_calls:
+                        b = bind_ctx_arg(bc)
+                        if b is None:
+                            res.add("C06-RECEIVER", f.qual, f"receiver:{text(bc)[:40]}", f"{f.qual}: cannot tell which context `{text(bc)[:60]}` renders with", f.file, bc.lineno)
+                            continue
+                        ok_r = False
+                        if isinstance(b, ast.Name):
+                            if b.id == recv_name or b.id in as_names:
+                                ok_r = True
+                            elif with_node is not None:
+                                # a context copied from the receiver *inside* the with (after the export)
+                                for st in ast.walk(with_node):
+                                    if isinstance(st, ast.Assign) and len(st.targets) == 1 and is_name(st.targets[0], b.id) and isinstance(st.value, ast.Call) and callee_name(st.value) == "copy" and isinstance(st.value.func, ast.Attribute) and is_name(st.value.func.value, recv_name or "") and any(k.arg == "carry_loop_iterations" and isinstance(k.value, ast.Constant) and k.value.value is True for k in st.value.keywords):
+                                        ok_r = True
+                        if not ok_r:
+                            res.add(
+                                "C06-RECEIVER",
+                                f.qual,
+                                f"receiver:{text(g.func)[:30]}!={text(b)[:20]}",
+                                f"{f.qual}: the repetition's length is exported with `{text(g)[:50]}` but its body renders with context `{text(b)[:20]}` — a different context object, so loops nested in the body are checked without this factor",
+                                f.file,
+                                g.lineno,
+                            )
                     res.sample({"rule": "C06-REPEAT", "site": f.qual, "iterates": text(it_)[:40], "guard": text(g)[:60]})
     if n_rep < 8:
         raise AnchorMissing(f"only {n_rep} data-driven repetitions found (for, tablerow, include, render expected, sync+async)")
